@@ -379,7 +379,9 @@ func genRawRecv(r *rand.Rand) *rawRecvCase {
 	switch final {
 	case "bad-seq":
 		// any number but the expected one: ahead, behind, far away
-		rc.Steps = append(rc.Steps, rawStep{Op: final, N: 1 + r.Intn(8), Seq: []int{1, 2, -1, 7, 65535, 40000}[r.Intn(6)]})
+		// (65536 and 131072: the expected number plus a multiple of 65536, written
+		// out as such: not a 16-bit number at all)
+		rc.Steps = append(rc.Steps, rawStep{Op: final, N: 1 + r.Intn(8), Seq: []int{1, 2, -1, 7, 65535, 40000, 65536, 131072}[r.Intn(8)]})
 	case "oversize":
 		rc.Steps = append(rc.Steps, rawStep{Op: final, N: budget + 4 + r.Intn(3)})
 	case "":
@@ -550,6 +552,10 @@ func execRawRecv(c *core.Case, rc *rawRecvCase) {
 			id = rp.data(carrier, "dead-by-lib", st.Seq, b64)
 		case "bad-seq":
 			bad := (seq + st.Seq + 65536) % 65536
+			if st.Seq >= 65536 {
+				bad = seq + st.Seq
+				c.Count("inject_bad_seq_beyond_16_bits", 1)
+			}
 			id = rp.data(carrier, "live", bad, b64)
 		case "bad-b64-char":
 			// an illegal character in the middle of otherwise valid base64
@@ -590,6 +596,11 @@ func execRawRecv(c *core.Case, rc *rawRecvCase) {
 		got := ""
 		if rep != nil && rep.Attr("type") == "error" {
 			got = errCond(rep)
+		}
+		if st.Op == "bad-seq" && st.Seq >= 65536 && got == "bad-request" {
+			// a number that is no 16-bit number at all is as much an unusable packet
+			// as an unexpected number: either refusal will do
+			want = got
 		}
 		switch {
 		case want == "" && got == "bad-request" && !equivalentForm(st.Form):
